@@ -142,8 +142,8 @@ def run_buffer(cfg, strategy, max_steps=5000):
     for (t, op, obj, val) in S.log:
         if op in ('evt_clear',):
             continue
-        if op in ('evt_set', 'start', 'join'):
-            val = 0
+        if op in ('evt_set', 'start'):
+            val = 0          # (join keeps its value: 0 = the worker had ended, 1 = the timed join expired)
         events.append([roles.get(t, 99), OPS.get(op, 99), code_of(val) if not isinstance(val, bool) else int(val)])
     res.update({'events': events, 'verdict': S.verdict or 'ok', 'blocked': S.blocked_at_end, 'leaked': S.leaked,
                 'received': got, 'steps': S.steps, 'error': S.error, 'decisions': S.decisions,
